@@ -17,7 +17,9 @@ import numpy as np
 
 from .. import gens
 from ..harness import digest, quiet, watchdog, WatchdogTimeout, VERIF, REPO
-from ..monitors import call_sanitized, deep_digest
+from ..monitors import call_sanitized, deep_digest, abort_then_call, thread_probe, in_process_pools
+
+EMD_FILES = ('/emd/sift.py', '/emd/spectra.py', '/emd/cycles.py', '/emd/_cycles_support.py', '/emd/utils.py', '/emd/support.py', '/emd/logger.py')
 
 MANIFEST = {
     'text': 'Held on every call executed: 40+ public numeric entry points (six sift variants, single-IMF extraction plain and masked, mask-frequency estimate, envelope and extrema routines, frequency transform and its helpers, three spectra, bin constructors, cycle detection / statistics / alignment / binning / matching / container operations, amplitude normalisation and the other utils) are called on seeded inputs made read-only, with option dictionaries shared between successive calls; a byte-level mutation sanitizer compares every array / dict / list argument before and after each call, each deterministic call is repeated and compared, the documented layout table ((n,), (n,1), (n,1,1) accepted and array_equal; (n,2), (1,n), (n,2,3) rejected; vector == single column for transforms and cycle routines) and the length-mismatch table are enforced. Sampling of inputs, complete over the entry-point table.',
@@ -53,9 +55,12 @@ def layout(x, kind):
     raise ValueError(kind)
 
 
+WRITABLE = [False]     # every third round hands over ordinary writable arrays (the mutation sanitizer works on digests either way)
+
+
 def ro(a):
     a = np.array(a, copy=True)
-    a.setflags(write=False)
+    a.setflags(write=WRITABLE[0])
     return a
 
 
@@ -126,6 +131,12 @@ def build_table():
     T['hilberthuang'] = lambda r, s: (SP.hilberthuang, hht_args(r), dict(mode='energy'), True)
     T['hilberthuang_sparse'] = lambda r, s: (SP.hilberthuang, hht_args(r), dict(mode='amplitude', return_sparse=True), True)
     T['hilberthuang_1d'] = lambda r, s: (SP.hilberthuang_1d, hht_args(r), {}, True)
+
+    def hht_inrange_args(r):
+        # every frequency inside the bin range (nothing for the routine to filter out)
+        return ro(r.uniform(1.2, 9.8, (60, 3))), ro(r.uniform(.1, 2, (60, 3))), ro(np.linspace(1, 10, 7))
+    T['hilberthuang_sparse:all_in_range'] = lambda r, s: (SP.hilberthuang, hht_inrange_args(r), dict(mode='amplitude', return_sparse=True), True)
+    T['hilberthuang:all_in_range'] = lambda r, s: (SP.hilberthuang, hht_inrange_args(r), dict(mode=gens.pick(r, ['amplitude', 'energy'])), True)
     T['holospectrum'] = lambda r, s: (SP.holospectrum, (ro(r.uniform(0, 12, (40, 2))), ro(r.uniform(0, 4, (40, 2, 3))), ro(r.uniform(0, 2, (40, 2, 3))),
                                                         ro(np.linspace(1, 10, 5)), ro(np.linspace(.5, 3, 4))), dict(squash_time=gens.pick(r, [False, 'sum', 'mean'])), True)
     # the same routines on data with missing values (NaN amplitudes / values, as produced by masking or projecting cycles):
@@ -285,6 +296,11 @@ def scribble(o):
                 n += 1
             except (ValueError, TypeError):
                 pass
+    elif hasattr(o, 'toarray') and hasattr(o, 'data') and isinstance(o.data, np.ndarray):
+        # a sparse result: its stored values are the caller's too (in-place arithmetic such as `s /= s.sum()` writes them)
+        if o.data.flags.writeable and o.data.size:
+            o.data[...] = np.nan
+            n += 1
     elif isinstance(o, (tuple, list)):
         for v in o:
             n += scribble(v)
@@ -367,9 +383,14 @@ def run_entry(ctx, name, build, rng, shared, round_seed):
         # place - if a result aliases internal state (a cache, a module-level default, ...) the repeated call shows it
         import copy as _copy
         kept = _copy.deepcopy(res) if not hasattr(res, 'toarray') else res.copy()
+        before_scribble = [deep_digest(a) for a in args], {k: deep_digest(v) for k, v in kwargs.items()}
         scribbled = scribble(res)
         ctx.count('returned_arrays_scribbled', scribbled)
         after = [deep_digest(a) for a in args], {k: deep_digest(v) for k, v in kwargs.items()}
+        if after != before_scribble:
+            ctx.violation('result-aliases-input:%s' % name, 'overwriting the arrays RETURNED by %s changed an argument that had been passed to it: the result '
+                          'shares memory with the caller\'s input (so repeating the call after in-place arithmetic on the result gives a different result)' % name, case)
+            return
         res = kept
         session_activity(rng)
         try:
@@ -381,6 +402,48 @@ def run_entry(ctx, name, build, rng, shared, round_seed):
         ctx.count('repeat_calls')
         if not same_result(res, res2):
             ctx.violation('nondeterministic:%s' % name, 'repeating %s on the same input gave a different result' % name, case)
+            return
+        # a result belongs to the caller once returned: it is kept (untouched) while the same routine runs again on other data
+        d2 = result_digest(res2)
+        try:
+            with watchdog(120), quiet():
+                f3, a3, k3, _ = build(np.random.default_rng([round_seed, 77]), shared)
+                if det == 'seeded':
+                    st = np.random.get_state()
+                    np.random.seed(round_seed + 1)
+                try:
+                    f3(*a3, **k3)
+                finally:
+                    if det == 'seeded':
+                        np.random.set_state(st)
+        except WatchdogTimeout:
+            ctx.count('watchdog')
+            return
+        except Exception:
+            pass
+        ctx.count('held_results_rechecked')
+        if result_digest(res2) != d2:
+            ctx.violation('result-changed-after-return:%s' % name, 'a result returned by %s (and not touched by the caller) changed when %s was called again on '
+                          'other data: the returned arrays are not the caller\'s own' % (name, name), case)
+            return
+        # an abandoned call (Ctrl-C, MemoryError, a raising callback ... at an arbitrary statement) must leave nothing behind
+        if (round_seed + zlib.crc32(name.encode())) % 5 == 0 and det is True:
+            def aborted():
+                with quiet():
+                    f3(*a3, **k3)
+            try:
+                with watchdog(240):
+                    nlines, outs = abort_then_call(EMD_FILES, aborted, call, 3, rng)
+            except WatchdogTimeout:
+                ctx.count('watchdog')
+                return
+            ctx.count('aborted_calls_followed_by_a_valid_call', len(outs))
+            for where, got in outs:
+                if isinstance(got, Exception) or not same_result(res, got):
+                    ctx.violation('state-left-by-aborted-call:%s' % name, 'after a %s call was abandoned at %s:%d (%s), the next valid call %s'
+                                  % (name, where[0].rsplit('/', 1)[-1], where[2], where[1], 'raised %s: %s' % (type(got).__name__, str(got)[:80])
+                                     if isinstance(got, Exception) else 'returned a different result than before'), case)
+                    return
 
 
 # layout table ------------------------------------------------------------------------------
@@ -515,6 +578,8 @@ def layout_checks(ctx, rng, shared, round_seed):
 
 
 def one_round(ctx, table, round_seed, only=None):
+    WRITABLE[0] = (round_seed % 3 == 2)
+    ctx.count('rounds_with_writable_arrays' if WRITABLE[0] else 'rounds_with_read_only_arrays')
     rng = np.random.default_rng([ctx.seed, 19, round_seed])
     shared = shared_opts()
     ref = deep_digest(shared)
@@ -589,8 +654,26 @@ def interpreter_probe(ctx, table, round_seed):
                               {'kind': 'interpreter', 'round_seed': round_seed})
 
 
+def thread_check(ctx, table, seed):
+    """Four deterministic entry points (chosen at random, each on its own input) running at the same time in four threads."""
+    r = np.random.default_rng(seed)
+    names = [n for n in sorted(table) if n not in ('ensemble_sift', 'complete_ensemble_sift')]
+    # the same routine twice on different inputs of the same size, plus two others
+    first = names[int(r.integers(len(names)))]
+    chosen = [first, first] + [names[int(r.integers(len(names)))] for _ in range(2)]
+    calls = []
+    WRITABLE[0] = False
+    for k, nm in enumerate(chosen):
+        func, args, kwargs, det = table[nm](np.random.default_rng([seed, k]), shared_opts())
+        calls.append((lambda f, a, kw: (lambda: f(*a, **kw)))(func, args, kwargs))
+    with in_process_pools(), quiet():
+        return thread_probe(ctx, '+'.join(chosen), calls, 8, {'seed': int(seed), 'entries': chosen}, interval=1e-6)
+
+
 def run_shard(ctx):
     table = build_table()
+    for k in range(3):
+        thread_check(ctx, table, int(ctx.rng.integers(1 << 30)))
     if ctx.shard % 4 == 1:
         interpreter_probe(ctx, table, 1000 * ctx.seed + ctx.shard)
     rounds = [r for r in range(ROUNDS[ctx.tier]) if r % ctx.nshards == ctx.shard]
@@ -620,6 +703,11 @@ def finalize(agg, tier):
 
 def replay(ctx, case):
     table = build_table()
+    if case['kind'] == 'threads':
+        for _ in range(5):
+            if not thread_check(ctx, table, case['seed']):
+                break
+        return
     if case['kind'] == 'interpreter':
         return interpreter_probe(ctx, table, case['round_seed'])
     if case['kind'] == 'entry':
